@@ -131,6 +131,9 @@ double vx_mbf(const gm2calc::thdm::Mass_basis* b, int k)
    default: return b->m122;
    }
 }
+double vx_mfs(const T* m, int f, int i, double scale) { return f == 0 ? m->get_mu(scale)(i) : f == 1 ? m->get_md(scale)(i) : m->get_ml(scale)(i); }
+int vx_running(const T* m) { return m->config.running_couplings ? 1 : 0; }
+double vx_sm_par(const T* m, int k) { return k == 0 ? m->sm.get_alpha_s_mz() : k == 1 ? m->sm.get_mz() : m->sm.get_alpha_em_mz(); }
 int vx_type(const T* m) { return static_cast<int>(m->yukawa_type); }
 void vx_ctor_mass(T* m, const gm2calc::thdm::Mass_basis* b, const gm2calc::SM* sm, const gm2calc::thdm::Config* cfg) { new (m) T(*b, *sm, *cfg); }
 void vx_ctor_gauge(T* m, const gm2calc::thdm::Gauge_basis* b, const gm2calc::SM* sm, const gm2calc::thdm::Config* cfg) { new (m) T(*b, *sm, *cfg); }
